@@ -81,6 +81,9 @@ void oracle_misuse_op(const Op& op) {
   else if (op.code == OP_overflow_byte) {
     block_verify(b, "before the overflow"); model_remove(b); H.slots[b->slot] = nullptr;
     uint8_t* q = b->p + b->req; const uint8_t oldv = *q; *q = (uint8_t)(oldv ^ (uint8_t)(1 + (op.a % 255)));   // a different (foreign) value
+    // op.b: the write runs on for up to 8 bytes in all (a block is followed by at least 8 bytes of its own padding, so this stays inside the block:
+    // fill bytes, then - for an exact fit - the canary and the recorded slack themselves)
+    for (uint64_t i = 1; i < op.b && i < 8; i++) q[i] = (op.c & 1) ? 0xFF : (uint8_t)(q[i] ^ (uint8_t)(1 + ((op.a >> 8) + i) % 255));
     void* p = b->p; size_t req = b->req; delete b;
     H.misuse_expected++;
     expect_errors(EB_EFAULT);
@@ -260,7 +263,7 @@ void oracle_purge_check(const Op& op) {
       uintptr_t top = 0; for (auto& x : H.watch) if ((x.p & SEGMASK) == (w.p & SEGMASK) && x.p + x.usable > top) top = x.p + x.usable;
       bool has = false;
       for (size_t i = 0; i < H.sentinel_bases.size(); i++) if (H.sentinel_bases[i] == (w.p & SEGMASK) && (H.sentinel_alloc_addr[i] == 0 || H.sentinel_alloc_addr[i] >= top)) has = true;
-      if (!has && delay > 0) continue;
+      if (!has && delay > 0 && !(op.a & 8)) continue;      // op.a bit 3: the watched pages lie in an abandoned segment, where the visits of non-forced collects are the activity
     }
     // every 64 KiB unit completely inside the freed block must be covered by a purge-type call issued after the free
     uintptr_t u0 = (w.p + 65535) & ~(uintptr_t)65535, u1 = (w.p + w.usable) & ~(uintptr_t)65535;
